@@ -143,8 +143,38 @@ def commute(a, b):
     return (a, b) if ka <= kb else (b, a)
 
 
+def _pow2(n):
+    """k if n is the constant 2^k with k >= 1."""
+    if isinstance(n, tuple) and n[0] == "c" and isinstance(n[1], int) and n[1] >= 2 and n[1] & (n[1] - 1) == 0:
+        return n[1].bit_length() - 1
+    return None
+
+
+def canon_pow2(op, a, b, unsigned=True):
+    """One spelling for arithmetic with a power-of-two constant: x * 2^k == x << k (in modular arithmetic, whatever
+    the signedness); for unsigned operands x / 2^k == x >> k and x % 2^k == x & (2^k - 1).  Returns (op, a, b)."""
+    if op == "*":
+        k = _pow2(b)
+        if k is not None and a[0] != "c":
+            return ("<<", a, ("c", k))
+        k = _pow2(a)
+        if k is not None and b[0] != "c":
+            return ("<<", b, ("c", k))
+    elif unsigned and op == "/":
+        k = _pow2(b)
+        if k is not None and a[0] != "c":
+            return (">>", a, ("c", k))
+    elif unsigned and op == "%":
+        k = _pow2(b)
+        if k is not None and a[0] != "c":
+            return ("&", a, ("c", b[1] - 1))
+    return (op, a, b)
+
+
 def B(op, a, b):
-    """Build a binary norm term the way norm() would (canonical operand order for commutative operators)."""
+    """Build a binary norm term the way norm() would (canonical operand order for commutative operators, one
+    spelling for power-of-two arithmetic; the quantities rules describe with / and % are unsigned)."""
+    op, a, b = canon_pow2(op, a, b)
     if op in COMMUTATIVE:
         a, b = commute(a, b)
     return (op, a, b)
@@ -204,9 +234,13 @@ def _norm(e):
         return ("[]", norm(e.kid(0)), norm(e.kid(1)))
     if c in ("BinaryOperator", "CompoundAssignOperator"):
         a, b = norm(e.kid(0)), norm(e.kid(1))
-        if c == "BinaryOperator" and e.op in COMMUTATIVE:
+        op = e.op
+        if c == "BinaryOperator" and op in ("*", "/", "%"):
+            t = e.func.unit.types.get(e.ty) or {}
+            op, a, b = canon_pow2(op, a, b, unsigned=(t.get("kind") == "int" and t.get("signed") is False))
+        if c == "BinaryOperator" and op in COMMUTATIVE:
             a, b = commute(a, b)
-        return (e.op, a, b)
+        return (op, a, b)
     if c == "CallExpr":
         return ("call", e.callee or norm(e.kid(0))) + tuple(norm(a) for a in e.args)
     if c == "ConditionalOperator":
@@ -220,6 +254,25 @@ def _norm(e):
     if e.null:
         return ("c", 0)
     return (c,) + tuple(norm(k) for k in e.kids)
+
+
+def step(e):
+    """(op, target, amount) with op '+=' or '-=' when the element adds to or subtracts from an lvalue in place:
+    `x += k`, `x -= k` and, with amount 1, `x++`, `++x`, `x--`, `--x` (which is also what `x += 1` and `x = x + 1`
+    are turned into when a function is loaded).  None otherwise."""
+    if e.cls == "CompoundAssignOperator" and e.op in ("+=", "-="):
+        return (e.op, norm(e.kid(0)), norm(e.kid(1)))
+    if e.cls == "UnaryOperator" and e.op in ("post++", "pre++", "post--", "pre--"):
+        return ("+=" if e.op.endswith("++") else "-=", norm(e.kid(0)), ("c", 1))
+    return None
+
+
+def _pure(n):
+    """No call, increment or assignment inside a norm term (evaluating it twice is the same as once)."""
+    for t in subterms(n):
+        if isinstance(t, tuple) and t and isinstance(t[0], str) and (t[0] == "call" or t[0] in ("upost++", "upost--", "upre++", "upre--", "=") or t[0].endswith("=") and t[0] not in ("==", "!=", "<=", ">=")):
+            return False
+    return True
 
 
 def show(n):
@@ -345,12 +398,38 @@ class Func:
             for s in b.succs:
                 if s is not None:
                     self.blocks[s].preds.append(b.id)
+        self._canon_updates()
         self._dom = None
         self._pdom = None
         self._rpo = None
 
     def elem(self, ref):
         return self.blocks[ref[0]].elems[ref[1]]
+
+    def _canon_updates(self):
+        """One spelling for update statements, so that no rule depends on which one the source uses:
+        `x = x + k`, `x = k + x` -> `x += k`;  `x = x - k` -> `x -= k`;  `x += 1` -> `++x`;  `x -= 1` -> `--x`.
+        (The value of `x += 1` is the value of `++x`; the left side must be free of side effects.)"""
+        for b in self.blocks.values():
+            for e in b.elems:
+                if e.cls == "BinaryOperator" and e.op == "=" and len(e.kidrefs) == 2:
+                    lhs, rhs = e.kid(0), e.kid(1)
+                    r = rhs.strip() if rhs is not None else None
+                    if lhs is not None and r is not None and r.cls == "BinaryOperator" and r.op in ("+", "-") and len(r.kidrefs) == 2:
+                        ln = norm(lhs)
+                        if _pure(ln):
+                            if norm(r.kid(0)) == ln:
+                                e.cls, e.op, e.kidrefs = "CompoundAssignOperator", r.op + "=", [e.kidrefs[0], r.kidrefs[1]]
+                                e._kids = None
+                            elif r.op == "+" and norm(r.kid(1)) == ln:
+                                e.cls, e.op, e.kidrefs = "CompoundAssignOperator", "+=", [e.kidrefs[0], r.kidrefs[0]]
+                                e._kids = None
+                if e.cls == "CompoundAssignOperator" and e.op in ("+=", "-=") and len(e.kidrefs) == 2 and norm(e.kid(1)) == ("c", 1):
+                    e.cls, e.op, e.kidrefs = "UnaryOperator", ("pre++" if e.op == "+=" else "pre--"), [e.kidrefs[0]]
+                    e._kids = None
+        for b in self.blocks.values():
+            for e in b.elems:
+                e._norm = None
 
     @property
     def qname(self):
